@@ -6,9 +6,9 @@ from . import build as B, symcase
 
 
 class EngC:
-    def __init__(s, chk, name, extra=(), defines=(), std='c++17'):
+    def __init__(s, chk, name, extra=(), defines=(), std='c++17', keep_calls=()):
         s.chk = chk
-        s.u = B.Unit(chk.wd, name, extra=[e if os.path.isabs(e) else os.path.join(SRC, e) for e in extra], defines=defines, std=std)
+        s.u = B.Unit(chk.wd, name, extra=[e if os.path.isabs(e) else os.path.join(SRC, e) for e in extra], defines=defines, std=std, keep_calls=keep_calls)
         s.m = s.u.parsed()
         s.real = s.u.real_so('g++')
         s.rng = random.Random(chk.seed)
